@@ -37,10 +37,12 @@ def run(ck):
         centring = (i % 4 == 3)
         n = int(rng.integers(6, 12)); d = int(rng.integers(2, 4))
         X = rng.standard_normal((n, d)); Y = rng.standard_normal((n, nout))
+        if i % 2 == 0:
+            X[1] = X[0]; X[n - 1] = X[0]; X[3] = X[2]       # exactly repeated training rows (their targets differ): every occurrence is a training point
         iters = int(rng.integers(1, 4))
         xr.seed_all(1400 + i + ck.seed)
         m = xr.RealRFM(kernel=kern, iters=iters, bandwidth=2.0, exponent=[1.0, 1.3][i % 2], device='cpu', diag=diag, verbose=False, tuning_metric='mse', **extra)
-        desc = dict(i=i, kernel=kern, diag=diag, nout=nout, centring=centring, n=n, d=d, iters=iters, seed=ck.seed)
+        desc = dict(i=i, kernel=kern, diag=diag, nout=nout, centring=centring, n=n, d=d, iters=iters, repeated_rows=(i % 2 == 0), seed=ck.seed)
         try:
             with xr.quiet():
                 Ms = m.fit((T(X), T(Y)), (T(X[:4]), T(Y[:4])), iters=iters, reg=1e-2, verbose=False, center_grads=centring, return_Ms=True,
